@@ -215,8 +215,8 @@ pub fn c18_pair_judge(p: &Pair<C18Case>, obs: &mut Obs) -> Result<(), String> {
 
 fn c19_spawn(app: &mut App, c: &C19Case) -> Entity {
     let mut sb = AnimationSelectorBuilder::<K, A>::new().initial_key(KEYS[c.initial_key as usize % 4]);
-    for (i, t) in c.tls.iter().enumerate().take(3) {
-        sb = sb.add(KEYS[i], build_a(t));
+    for i in 0..c.tls.len().min(3) {
+        sb = add_keyed(sb, c, i);
     }
     let governed = match c.ctor_timeline {
         Some(i) => Animator::<A>::with_timeline(build_a(&c.tls[i as usize % c.tls.len().max(1)])),
